@@ -66,17 +66,17 @@ class _Subst(ast.NodeTransformer):
         return n
 
 
-def propagate_aliases(fn, rounds=4):
+def propagate_aliases(fn, rounds=4, only_params=False):
     """Returns a copy of fn with valid alias uses replaced."""
     fn = acopy(fn)
     for _ in range(rounds):
-        if not _one_round(fn):
+        if not _one_round(fn, only_params):
             break
     ast.fix_missing_locations(fn)
     return fn
 
 
-def _one_round(fn):
+def _one_round(fn, only_params=False):
     cfg = CFG(fn, may_raise=suspension_may_raise, name=fn.name)
     params = [a.arg for a in fn.args.args + fn.args.kwonlyargs]
     rd = reaching_defs(cfg, params)
@@ -105,6 +105,8 @@ def _one_round(fn):
             continue
         n = ns[0]
         a = n.ast
+        if only_params and not getattr(a, "_inline_param", False):
+            continue
         single_use_param = getattr(a, "_inline_param", False) and \
             _count_loads(fn, name) == 1
         if n.kind == "stmt" and isinstance(a, ast.Assign) and len(
@@ -287,7 +289,10 @@ def normalise(fn, world=None, modname=None, cls=None, primitives=(),
         fn = inl.expand(fn)
         info["inlined"] = inl.inlined
     parent = getattr(fn, "_parent", None)
-    if aliases:
+    if aliases == "params":
+        fn = propagate_aliases(fn, only_params=True)
+        ast.fix_missing_locations(fn)
+    elif aliases:
         if fn is not None and "inlined" in info and not info["inlined"]:
             fn = acopy(fn)
         fn = hoist_suspensions(fn)
